@@ -278,7 +278,7 @@ Proof.
     exists (reset m). split; [reflexivity|]. apply (flag_step g (reset m) s sv); auto.
   - (* SSwap *)
     destruct (loop_ready sv && client sv) eqn:Hready; [|discriminate].
-    destruct (Z.eqb (size sv) 0) eqn:Hsz.
+    destruct (is_nil (results sv)) eqn:Hsz.
     + inversion Hstep; subst sv' vs; clear Hstep. cbn in Hap. inversion Hap; subst st' es0; clear Hap.
       exists m. split; [reflexivity|]. eapply flag_step; eauto.
     + inversion Hstep; subst sv' vs; clear Hstep. cbn in Hap. inversion Hap; subst st' es0; clear Hap.
@@ -288,7 +288,7 @@ Proof.
         rewrite !andb_false_r in Hready. discriminate. }
       rewrite Hinf in R2.
       assert (Hne : results sv <> []).
-      { intros X. apply R3 in X. rewrite X in Hsz. discriminate. }
+      { intros X. rewrite X in Hsz. discriminate. }
       cbn [app run_mon smon_step]. rewrite Hw, R2, R1.
       destruct (results sv) as [|x xs] eqn:Eres; [contradiction|].
       eexists. split; [reflexivity|]. unfold GS; cbn. apply Forall2_upd; [assumption|].
